@@ -557,6 +557,9 @@ func (g *tgen) hashStruct(f *TFile) *TStruct {
 	f.Structs = append(f.Structs, st)
 	g.all = append(g.all, st)
 	n := 41 + g.r.Intn(30)
+	if g.r.Chance(25) {
+		n += 60 + g.r.Intn(60) // long probe runs: look-alike names hash to neighbouring slots
+	}
 	alpha := []string{"a", "b", "c"}
 	nonASCII := g.cfg.NonASCII && g.r.Bool()
 	if nonASCII {
@@ -595,6 +598,13 @@ func (g *tgen) hashStruct(f *TFile) *TStruct {
 		st.Fields = append(st.Fields, fd)
 	}
 	return st
+}
+
+func baseSvcName(b *TService) string {
+	if b == nil {
+		return ""
+	}
+	return b.Name
 }
 
 const TBaseIDL = `namespace go base
@@ -691,6 +701,21 @@ func GenTProgram(r *h.Rand, cfg TCfg) *TProgram {
 			}
 		} else if k > 0 && r.Chance(30) {
 			s.Extends = main.Services[0] // same-file inheritance
+		}
+		if k > 0 && s.Name != baseSvcName(baseSvc) && r.Chance(25) {
+			// names are case sensitive: svca / SVCA next to SvcA are services of their own
+			prev := main.Services[r.Intn(len(main.Services))].Name
+			cand := strings.ToLower(prev)
+			if r.Bool() {
+				cand = strings.ToUpper(prev)
+			}
+			taken := false
+			for _, o := range main.Services {
+				taken = taken || o.Name == cand
+			}
+			if !taken {
+				s.Name = cand
+			}
 		}
 		main.Services = append(main.Services, s)
 	}
